@@ -13,6 +13,8 @@
 
 #include <algorithm>
 #include <climits>
+#include <compare>
+#include <limits>
 
 namespace {
 using namespace c20;
@@ -857,6 +859,181 @@ void swap_adl(Ctx& c)
     }
 }
 
+// ------------------------------------------------------------------------------------------------ heterogeneous element types
+// pair / tuple relations (every operator both libraries provide, both operand orders) and converting construction /
+// assignment between pairs / tuples whose element types DIFFER at an index, over a value table that contains values not
+// representable in the other side's type (1.5 vs int, 256 vs unsigned char, 2^32+1 vs int, 2^53+1 vs double, 0.1f vs 0.1,
+// -1 vs unsigned): the comparison must be the built-in mixed comparison std performs, never a comparison after converting
+// one side to the other side's element type.
+// (a class element comparable with int - c20::CI - is swept in its own probe cell, C20_probe family 21, so that a tree on
+// which that comparison does not compile cannot take the arithmetic sweeps below with it)
+template <typename T>
+struct hv {
+    using rep = T;
+    static T make(long double v) { return static_cast<T>(v); }
+    static long double val(T const& t) { return static_cast<long double>(t); }
+    static constexpr char const* name = "?";
+};
+template <typename Rep>
+bool representable(long double v)
+{
+    if constexpr (std::is_floating_point_v<Rep>) {
+        return static_cast<long double>(static_cast<Rep>(v)) == v;
+    } else {
+        if (!(v >= static_cast<long double>(std::numeric_limits<Rep>::lowest()) && v <= static_cast<long double>(std::numeric_limits<Rep>::max()))) { return false; }
+        return v == static_cast<long double>(static_cast<Rep>(v)); // in range, so the conversion is defined; equal only for integral values
+    }
+}
+// is static_cast<To>(value of type From) defined behaviour?
+template <typename To, typename From>
+bool conv_defined(From v)
+{
+    if constexpr (std::is_floating_point_v<From> && std::is_integral_v<To>) {
+        long double t = static_cast<long double>(v);
+        t             = t < 0 ? -static_cast<long double>(static_cast<unsigned long long>(-t)) : static_cast<long double>(static_cast<unsigned long long>(t));
+        return t >= static_cast<long double>(std::numeric_limits<To>::lowest()) && t <= static_cast<long double>(std::numeric_limits<To>::max());
+    } else {
+        return true;
+    }
+}
+std::vector<long double> const& hetero_values()
+{
+    static std::vector<long double> const v = {-2147483649.0L, -2147483648.0L, -65536.0L, -257.0L, -256.0L, -129.0L, -128.0L, -1.0L, -0.5L, 0.0L, 0.5L, 1.0L, 1.5L, 2.0L, 127.0L,
+        128.0L, 255.0L, 256.0L, 257.0L, 65535.0L, 65536.0L, 16777216.0L, 16777217.0L, 2147483647.0L, 2147483648.0L, 4294967295.0L, 4294967296.0L, 4294967297.0L,
+        9007199254740992.0L, 9007199254740993.0L, 18446744073709551615.0L, static_cast<long double>(0.1f), static_cast<long double>(0.1)};
+    return v;
+}
+char const* sgn3(long double a, long double b) { return a < b ? "less" : (a > b ? "greater" : "equal"); }
+
+// all relations that BOTH libraries provide for these operand types, both operand orders
+template <typename E1, typename E2, typename S1, typename S2>
+void hetero_relations(E1 const& e1, E2 const& e2, S1 const& s1, S2 const& s2)
+{
+    if constexpr (requires { s1 == s2; } && requires { e1 == e2; }) {
+        EQ_BOOL("operator==", "==", e1 == e2, s1 == s2);
+        EQ_BOOL("operator!=", "!=", e1 != e2, s1 != s2);
+        EQ_BOOL("operator==", "==(swapped)", e2 == e1, s2 == s1);
+        EQ_BOOL("operator!=", "!=(swapped)", e2 != e1, s2 != s1);
+    }
+    if constexpr (requires { s1 < s2; } && requires { e1 < e2; }) {
+        EQ_BOOL("operator<", "<", e1 < e2, s1 < s2);
+        EQ_BOOL("operator<=", "<=", e1 <= e2, s1 <= s2);
+        EQ_BOOL("operator>", ">", e1 > e2, s1 > s2);
+        EQ_BOOL("operator>=", ">=", e1 >= e2, s1 >= s2);
+        EQ_BOOL("operator<", "<(swapped)", e2 < e1, s2 < s1);
+        EQ_BOOL("operator>=", ">=(swapped)", e2 >= e1, s2 >= s1);
+    }
+    if constexpr (requires { s1 <=> s2; } && requires { e1 <=> e2; }) {
+        EQ_BOOL("operator<=>", "<=>:less", (e1 <=> e2) < 0, (s1 <=> s2) < 0);
+        EQ_BOOL("operator<=>", "<=>:equal", (e1 <=> e2) == 0, (s1 <=> s2) == 0);
+        EQ_BOOL("operator<=>", "<=>:less(swapped)", (e2 <=> e1) < 0, (s2 <=> s1) < 0);
+    }
+}
+template <typename L, typename R>
+void hetero_pair_of_types(Ctx& c, char const* lname, char const* rname)
+{
+    using LR = typename hv<L>::rep;
+    using RR = typename hv<R>::rep;
+    std::vector<long double> lv, rv;
+    for (long double v : hetero_values()) {
+        if (representable<LR>(v)) { lv.push_back(v); }
+        if (representable<RR>(v)) { rv.push_back(v); }
+    }
+    static char subj_t[96], subj_t2[96], subj_p[96];
+    std::snprintf(subj_t, sizeof subj_t, "tuple<%s,int> vs tuple<%s,int>", lname, rname);
+    std::snprintf(subj_t2, sizeof subj_t2, "tuple<int,%s> vs tuple<int,%s>", lname, rname);
+    std::snprintf(subj_p, sizeof subj_p, "pair<%s,int> vs pair<%s,int>", lname, rname);
+    std::uint64_t n = 0;
+    for (long double av : lv) {
+        for (long double bv : rv) {
+            L const a = hv<L>::make(av);
+            R const b = hv<R>::make(bv);
+            // classification from the mathematical values; "lossy" = equal only after converting one side to the other's type
+            bool to_l = conv_defined<LR>(static_cast<RR>(bv)) && static_cast<long double>(static_cast<LR>(static_cast<RR>(bv))) == av && av != bv;
+            bool to_r = conv_defined<RR>(static_cast<LR>(av)) && static_cast<long double>(static_cast<RR>(static_cast<LR>(av))) == bv && av != bv;
+            for (int tail = 0; tail < 2; ++tail) {
+                char sit[96];
+                std::snprintf(sit, sizeof sit, "hetero-%s%s%s,int-%s", sgn3(av, bv), to_l ? ",equal-after-conversion-to-lhs" : "", to_r ? ",equal-after-conversion-to-rhs" : "",
+                    tail ? "differs" : "equal");
+                g_sit = sit;
+                std::snprintf(c.desc, sizeof c.desc, "lhs=%.20Lg rhs=%.20Lg tail=%d", av, bv, tail);
+                c.h = vf::mix(0xE7E0, ++n);
+                g_subj = subj_t;
+                hetero_relations(etl::tuple<L, int>(a, 1), etl::tuple<R, int>(b, 1 + tail), std::tuple<L, int>(a, 1), std::tuple<R, int>(b, 1 + tail));
+                g_subj = subj_t2;
+                hetero_relations(etl::tuple<int, L>(1, a), etl::tuple<int, R>(1 + tail, b), std::tuple<int, L>(1, a), std::tuple<int, R>(1 + tail, b));
+                g_subj = subj_p;
+                hetero_relations(etl::pair<L, int>(a, 1), etl::pair<R, int>(b, 1 + tail), std::pair<L, int>(a, 1), std::pair<R, int>(b, 1 + tail));
+            }
+            // converting construction / assignment R -> L (only where the conversion of this value is defined)
+            if constexpr (std::is_constructible_v<L, R const&>) {
+                if (conv_defined<LR>(static_cast<RR>(bv))) {
+                    g_sit  = to_l ? "converting,lossy" : "converting";
+                    g_subj = subj_p;
+                    crumb("pair(pair<U1,U2> const&)");
+                    etl::pair<R, int> const esrc(b, 3);
+                    std::pair<R, int> const ssrc(b, 3);
+                    etl::pair<L, int> ec(esrc);
+                    std::pair<L, int> sc(ssrc);
+                    if (hv<L>::val(ec.first) != hv<L>::val(sc.first)) { vf::diverge("first:value-after-conversion", std::to_string(hv<L>::val(ec.first)), std::to_string(hv<L>::val(sc.first))); }
+                    cover("pair(pair<U1,U2> const&)");
+                    crumb("pair(pair<U1,U2>&&)");
+                    etl::pair<L, int> em(etl::pair<R, int>(b, 3));
+                    if (hv<L>::val(em.first) != hv<L>::val(sc.first)) { vf::diverge("first:value-after-conversion", std::to_string(hv<L>::val(em.first)), std::to_string(hv<L>::val(sc.first))); }
+                    cover("pair(pair<U1,U2>&&)");
+                    if constexpr (std::is_assignable_v<L&, R const&>) {
+                        crumb("operator=(pair<U1,U2> const&)");
+                        etl::pair<L, int> ea(a, 0);
+                        std::pair<L, int> sa(a, 0);
+                        ea = esrc;
+                        sa = ssrc;
+                        if (hv<L>::val(ea.first) != hv<L>::val(sa.first)) { vf::diverge("first:value-after-conversion", std::to_string(hv<L>::val(ea.first)), std::to_string(hv<L>::val(sa.first))); }
+                        vf::eq_int("second", ea.second, sa.second);
+                        cover("operator=(pair<U1,U2> const&)");
+                    }
+                    g_subj = subj_t;
+                    crumb("tuple(Us&&...)");
+                    etl::tuple<L, int> et(b, 3);
+                    std::tuple<L, int> st(b, 3);
+                    if (hv<L>::val(etl::get<0>(et)) != hv<L>::val(std::get<0>(st))) {
+                        vf::diverge("element0:value-after-conversion", std::to_string(hv<L>::val(etl::get<0>(et))), std::to_string(hv<L>::val(std::get<0>(st))));
+                    }
+                    cover("tuple(Us&&...)");
+                    if constexpr (std::is_constructible_v<etl::tuple<L, int>, etl::tuple<R, int> const&> && std::is_constructible_v<std::tuple<L, int>, std::tuple<R, int> const&>) {
+                        crumb("tuple(tuple<Us...> const&)");
+                        etl::tuple<R, int> const es2(b, 3);
+                        std::tuple<R, int> const ss2(b, 3);
+                        etl::tuple<L, int> et2(es2);
+                        std::tuple<L, int> st2(ss2);
+                        if (hv<L>::val(etl::get<0>(et2)) != hv<L>::val(std::get<0>(st2))) { vf::diverge("element0:value-after-conversion", "differs", "std value"); }
+                        cover("tuple(tuple<Us...> const&)");
+                    }
+                }
+            }
+        }
+    }
+}
+constexpr unsigned kHetero = 8;
+template <typename A, typename B>
+void hetero_both_orders(Ctx& c, char const* an, char const* bn)
+{
+    hetero_pair_of_types<A, B>(c, an, bn);
+    hetero_pair_of_types<B, A>(c, bn, an);
+}
+void hetero_case(Ctx& c, unsigned k)
+{
+    switch (k) {
+    case 0: hetero_both_orders<int, double>(c, "int", "double"); break;
+    case 1: hetero_both_orders<unsigned char, int>(c, "unsigned char", "int"); break;
+    case 2: hetero_both_orders<long long, int>(c, "long long", "int"); break;
+    case 3: hetero_both_orders<int, unsigned>(c, "int", "unsigned"); break;
+    case 4: hetero_both_orders<signed char, unsigned char>(c, "signed char", "unsigned char"); break;
+    case 5: hetero_both_orders<float, double>(c, "float", "double"); break;
+    case 6: hetero_both_orders<long long, double>(c, "long long", "double"); break;
+    default: hetero_both_orders<short, unsigned long long>(c, "short", "unsigned long long"); break;
+    }
+}
+
 // ------------------------------------------------------------------------------------------------ random part
 int boundary_int(vf::Rng& r)
 {
@@ -958,7 +1135,7 @@ std::string absent_apis()
 vf::Spec spec(vf::Tier t)
 {
     vf::Spec s;
-    s.n_enum     = 729;
+    s.n_enum     = 729 + kHetero; // every ordered pair of 3-tuples over {0,1,2} + one case per heterogeneous element-type pair
     s.n_random   = t == vf::Tier::thorough ? 200000 : 4000;
     s.batch      = t == vf::Tier::thorough ? 256 : 32;
     s.exhaustive = true;
@@ -969,7 +1146,11 @@ void run_case(vf::Case& c)
     Ctx x{};
     g_c          = &x;
     x.enumerated = c.enumerated;
-    if (c.enumerated) {
+    if (c.enumerated && c.index >= 729) {
+        unsigned k = (unsigned)(c.index - 729);
+        if (vf::want_sample("heterogeneous")) { vf::sample("heterogeneous", "element-type pair #%u: every value pair of the table representable in the two types, both operand orders", k); }
+        hetero_case(x, k);
+    } else if (c.enumerated) {
         unsigned a = (unsigned)(c.index / 27), b = (unsigned)(c.index % 27);
         for (int i = 2; i >= 0; --i) {
             x.x[i] = (int)(a % 3);
